@@ -35,22 +35,27 @@ pub type DateTimePattern_string = String;
 
 // ---- assumed: the standard-output handles.  `view()` = payload bytes written through the handle so far;
 // write_all appends on Ok, flush does not change the view; colour escapes are counted apart from payload
+pub trait WriteStd {
+    spec fn view(&self) -> Seq<u8>;
+    fn write_all(&mut self, buf: &[u8]) -> (r: Result<()>)
+        ensures r is Ok ==> final(self).view() == old(self).view() + buf@;
+    fn flush(&mut self) -> (r: Result<()>)
+        ensures final(self).view() == old(self).view();
+}
 #[verifier::external_body]
 pub struct StdoutLock { _p: u8 }
-impl StdoutLock {
-    pub uninterp spec fn view(&self) -> Seq<u8>;
+impl WriteStd for StdoutLock {
+    uninterp spec fn view(&self) -> Seq<u8>;
     #[verifier::external_body]
-    pub fn write_all(&mut self, buf: &[u8]) -> (r: Result<()>)
-        ensures r is Ok ==> final(self)@ == old(self)@ + buf@
-    { unimplemented!() }
+    fn write_all(&mut self, buf: &[u8]) -> (r: Result<()>) { unimplemented!() }
     #[verifier::external_body]
-    pub fn flush(&mut self) -> (r: Result<()>) ensures final(self)@ == old(self)@ { unimplemented!() }
+    fn flush(&mut self) -> (r: Result<()>) { unimplemented!() }
 }
 #[verifier::external_body]
 pub struct Stdout { _p: u8 }
 impl Stdout {
     #[verifier::external_body]
-    pub fn lock(&self) -> (r: StdoutLock) ensures r@ == Seq::<u8>::empty() { unimplemented!() }
+    pub fn lock(&self) -> (r: StdoutLock) ensures r.view() == Seq::<u8>::empty() { unimplemented!() }
 }
 #[verifier::external_body]
 pub struct ColorSpec { _p: u8 }
@@ -62,6 +67,78 @@ pub struct ColorChoice { _p: u8 }
 pub struct FixedOffset { _p: u8 }
 #[verifier::external_body]
 pub struct StandardStream { _p: u8 }
+
+// ---- assumed: a line part is a byte slice of a block; real struct shapes of Line / Sysline cut from /repo
+#[verifier::external_body]
+pub struct LinePart { _p: u8 }
+impl LinePart {
+    pub uninterp spec fn bytes(&self) -> Seq<u8>;
+    #[verifier::external_body]
+    pub fn as_slice(&self) -> (r: &[u8]) ensures r@ == self.bytes() { unimplemented!() }
+}
+pub type LineParts = Vec<LinePart>;
+pub type LineIndex = usize;
+//@cut type kind=struct path=src/data/line.rs name=Line derives= pubfields=1
+//@end
+pub type LineP = Arc<Line>;
+pub type Lines = Vec<LineP>;
+//@cut type kind=struct path=src/data/sysline.rs name=Sysline derives= pubfields=1
+//@end
+pub type SyslineP = Arc<Sysline>;
+impl Sysline {
+    #[verifier::external_body]
+    pub fn dt(&self) -> (r: &DateTimeL) ensures *r == self.dt { unimplemented!() }
+}
+
+/// bytes of a line = concatenation of its parts, in order
+pub open spec fn parts_bytes(s: Seq<LinePart>) -> Seq<u8>
+    decreases s.len()
+{
+    if s.len() == 0 { Seq::<u8>::empty() } else { parts_bytes(s.drop_last()) + s.last().bytes() }
+}
+/// C13 / C02: payload of a text message = for each line, in order: prefix ++ bytes of the line
+pub open spec fn lines_payload(pre: Seq<u8>, ls: Seq<LineP>) -> Seq<u8>
+    decreases ls.len()
+{
+    if ls.len() == 0 { Seq::<u8>::empty() } else { lines_payload(pre, ls.drop_last()) + pre + parts_bytes(ls.last().lineparts@) }
+}
+pub open spec fn total_parts(ls: Seq<LineP>) -> int
+    decreases ls.len()
+{
+    if ls.len() == 0 { 0 } else { total_parts(ls.drop_last()) + ls.last().lineparts@.len() + 2 }
+}
+pub proof fn lemma_parts_prefix(s: Seq<LinePart>, k: int)
+    requires 0 <= k < s.len()
+    ensures parts_bytes(s.take(k + 1)) == parts_bytes(s.take(k)) + s[k].bytes(),
+            parts_bytes(s.take(k + 1)).len() <= parts_bytes(s).len(),
+    decreases s.len() - k
+{
+    assert(s.take(k + 1).drop_last() =~= s.take(k));
+    assert(s.take(k + 1).last() == s[k]);
+    if k + 1 < s.len() { lemma_parts_prefix(s, k + 1); assert(parts_bytes(s.take(k + 2)).len() >= parts_bytes(s.take(k + 1)).len()); }
+    else { assert(s.take(k + 1) =~= s); }
+}
+pub proof fn lemma_lines_prefix(pre: Seq<u8>, ls: Seq<LineP>, k: int)
+    requires 0 <= k < ls.len()
+    ensures lines_payload(pre, ls.take(k + 1)) == lines_payload(pre, ls.take(k)) + pre + parts_bytes(ls[k].lineparts@),
+            lines_payload(pre, ls.take(k + 1)).len() <= lines_payload(pre, ls).len(),
+            total_parts(ls.take(k + 1)) == total_parts(ls.take(k)) + ls[k].lineparts@.len() + 2,
+            total_parts(ls.take(k + 1)) <= total_parts(ls),
+            total_parts(ls.take(k)) >= 0,
+    decreases ls.len() - k
+{
+    assert(ls.take(k + 1).drop_last() =~= ls.take(k));
+    assert(ls.take(k + 1).last() == ls[k]);
+    lemma_total_nonneg(ls.take(k));
+    if k + 1 < ls.len() { lemma_lines_prefix(pre, ls, k + 1); }
+    else { assert(ls.take(k + 1) =~= ls); }
+}
+pub proof fn lemma_total_nonneg(ls: Seq<LineP>)
+    ensures total_parts(ls) >= 0
+    decreases ls.len()
+{
+    if ls.len() > 0 { lemma_total_nonneg(ls.drop_last()); }
+}
 
 // ---- assumed: an accounting record renders itself into the caller's buffer; R(m) = buffer[..at]
 //@cut type kind=enum path=src/data/fixedstruct.rs name=InfoAsBytes derives=
@@ -95,7 +172,57 @@ impl FixedStruct {
 //@replace "termcolor::StandardStream" "StandardStream"
 //@end
 
-//@macros path=src/printer/printers.rs names=buffer_flush_or_seterr,buffer_flush_or_return,buffer_flush_nostats,buffer_write_or_return
+// ---- real: the printer macros, each verified ONCE as a function generated from its body (R13) against the
+// contract below; invocations in the printers become calls (place arguments by reference)
+
+//@macrofn path=src/printer/printers.rs name=buffer_flush_or_seterr generics="W: WriteStd"
+//@params stdout:mut:W buffer:mut:Vec<u8> printed:mut:usize flushed:mut:usize error_ret:mut:Option<Error>
+//@spec
+    requires
+        *old(printed) + old(buffer)@.len() <= usize::MAX, *old(flushed) < usize::MAX,
+    ensures
+        *final(flushed) <= *old(flushed) + 1, *final(flushed) >= *old(flushed),
+        (*old(error_ret)) is Some ==> (*final(error_ret)) is Some,
+        // the buffer content goes out, in order, exactly once, and is counted
+        (*final(error_ret)) is None ==> final(stdout).view() == old(stdout).view() + old(buffer)@
+            && final(buffer)@.len() == 0 && *final(printed) == *old(printed) + old(buffer)@.len(),
+//@end
+
+//@macrofn path=src/printer/printers.rs name=buffer_flush_or_return may_return=1 generics="W: WriteStd"
+//@params stdout:mut:W buffer:mut:Vec<u8> printed:mut:usize flushed:mut:usize
+//@spec
+    requires
+        *old(printed) + old(buffer)@.len() <= usize::MAX, *old(flushed) < usize::MAX,
+    ensures
+        *final(flushed) <= *old(flushed) + 1, *final(flushed) >= *old(flushed),
+        r is Ok ==> final(stdout).view() == old(stdout).view() + old(buffer)@
+            && final(buffer)@.len() == 0 && *final(printed) == *old(printed) + old(buffer)@.len(),
+//@end
+
+//@macrofn path=src/printer/printers.rs name=buffer_flush_nostats generics="W: WriteStd"
+//@params stdout:mut:W buffer:mut:Vec<u8>
+//@spec
+    requires old(buffer)@.len() <= usize::MAX
+//@end
+
+//@macrofn path=src/printer/printers.rs name=buffer_write_or_return may_return=1 generics="W: WriteStd"
+//@params stdout:mut:W buffer:mut:Vec<u8> slice_:val:&[u8] printed:mut:usize flushed:mut:usize
+//@spec
+    requires
+        *old(printed) + old(buffer)@.len() + slice_@.len() <= usize::MAX, *old(flushed) < usize::MAX - 2,
+    ensures
+        *final(flushed) <= *old(flushed) + 2, *final(flushed) >= *old(flushed),
+        // C02 / C13: the logical output stream (bytes written ++ bytes buffered) grows by exactly the slice, in order,
+        // whatever the relation of the slice length to the remaining capacity and to BUFFER_CAP;
+        // C19: `printed` counts exactly the bytes that reached the handle
+        r is Ok ==> final(stdout).view() + final(buffer)@ == old(stdout).view() + old(buffer)@ + slice_@,
+        r is Ok ==> *final(printed) - *old(printed) == final(stdout).view().len() - old(stdout).view().len(),
+        r is Ok ==> final(stdout).view().len() >= old(stdout).view().len(),
+        final(buffer)@.len() <= usize::MAX,
+//@mutate "(*printed) += (*buffer).len();" ""
+//@mutate "(*buffer).extend_from_slice((slice_));" ""
+//@mutate "(*buffer).clear();" ""
+//@end
 
 /// D(m): the datetime field text for a message whose datetime is `dt`, under the printer's format and zone (opaque: chrono)
 pub uninterp spec fn dt_text(fmt: Seq<u8>, dt: DateTimeL) -> Seq<u8>;
@@ -107,6 +234,301 @@ impl PrinterLogMessage {
     fn datetime_to_string_fixedstruct(&self, fixedstruct: &FixedStruct) -> (r: String)
         ensures r.bytes() == dt_text(self.prepend_date_format.bytes(), fixedstruct.dt_spec())
     { unimplemented!() }
+
+    #[verifier::external_body]
+    fn datetime_to_string_sysline(&self, syslinep: &SyslineP) -> (r: String)
+        ensures r.bytes() == dt_text(self.prepend_date_format.bytes(), syslinep.dt)
+    { unimplemented!() }
+
+//@cut fn path=src/printer/printers.rs impl=PrinterLogMessage name=print_line ret=r
+//@replace "stdout_lock: &mut StdoutLock" "stdout_lock: &mut StdoutLock"
+//@desugar_for 1 it
+//@spec
+    requires
+        old(self).buffer@.len() + parts_bytes(linep.lineparts@).len() <= usize::MAX,
+        linep.lineparts@.len() * 2 + 2 < usize::MAX,
+    ensures
+        final(self).same_config(old(self)),
+        final(self).buffer@.len() <= usize::MAX,
+        // the logical stream grows by exactly the bytes of the line, in part order; the count is what reached the handle
+        r is Ok ==> final(stdout_lock).view() + final(self).buffer@ == old(stdout_lock).view() + old(self).buffer@ + parts_bytes(linep.lineparts@),
+        r is Ok ==> r->Ok_0.0 as int == final(stdout_lock).view().len() - old(stdout_lock).view().len(),
+        r is Ok ==> final(stdout_lock).view().len() >= old(stdout_lock).view().len(),
+        r is Ok ==> r->Ok_0.1 as int <= linep.lineparts@.len() * 2,
+//@before "let mut it = vstd"
+        let ghost v0 = stdout_lock.view();
+        let ghost b0 = self.buffer@;
+//@loop 1
+            invariant_except_break
+                vstd::std_specs::iter::IteratorSpec::decrease(&it.iter) is Some,
+            invariant
+                it.snapshot@ == it__snap0, it.wf(),
+                it.seq().len() == linep.lineparts@.len(),
+                forall|i: int| 0 <= i < linep.lineparts@.len() ==> *it.seq()[i] == linep.lineparts@[i],
+                0 <= it.index@ <= it.seq().len(),
+                self.same_config(old(self)),
+                b0.len() + parts_bytes(linep.lineparts@).len() <= usize::MAX, linep.lineparts@.len() * 2 + 2 < usize::MAX,
+                stdout_lock.view() + self.buffer@ == v0 + b0 + parts_bytes(linep.lineparts@.take(it.index@ as int)),
+                printed as int == stdout_lock.view().len() - v0.len(), stdout_lock.view().len() >= v0.len(),
+                flushed as int <= it.index@ * 2,
+                self.buffer@.len() <= usize::MAX,
+            ensures
+                it.index@ == it.seq().len(),
+            decreases vstd::std_specs::iter::IteratorSpec::decrease(&it.iter).unwrap_or(arbitrary()),
+//@after "let slice: &[u8]"
+            proof {
+                let k = it__old.index@ as int;
+                lemma_parts_prefix(linep.lineparts@, k);
+                assert(slice@ == linep.lineparts@[k].bytes());
+                assert((stdout_lock.view() + self.buffer@).len() == stdout_lock.view().len() + self.buffer@.len());
+                assert((v0 + b0 + parts_bytes(linep.lineparts@.take(k))).len() == v0.len() + b0.len() + parts_bytes(linep.lineparts@.take(k)).len());
+                assert(parts_bytes(linep.lineparts@.take(k + 1)).len() == parts_bytes(linep.lineparts@.take(k)).len() + slice@.len());
+            }
+//@before "PrinterLogMessageResult::Ok((printed, flushed))"
+        proof { assert(linep.lineparts@.take(linep.lineparts@.len() as int) =~= linep.lineparts@); }
+//@end
+
+    /// C13: per-line prefix of a text message = [file-name field] ++ [datetime field], in that order
+    pub open spec fn sys_prefix(&self, m: &SyslineP, with_file: bool, with_date: bool) -> Seq<u8> {
+        (if with_file { self.pf() } else { Seq::<u8>::empty() })
+        + (if with_date { dt_text(self.prepend_date_format.bytes(), m.dt) } else { Seq::<u8>::empty() })
+    }
+
+//@cut fn path=src/printer/printers.rs impl=PrinterLogMessage name=print_sysline_ ret=r
+//@desugar_for 1 it
+//@spec
+    requires
+        old(self).buffer@.len() == 0,
+        lines_payload(old(self).sys_prefix(syslinep, false, false), syslinep.lines@).len() <= usize::MAX,
+        total_parts(syslinep.lines@) * 2 + 4 < usize::MAX,
+    ensures
+        final(self).same_config(old(self)),
+        r is Ok ==> final(self).buffer@.len() == 0,
+        // C19: the count returned is the number of payload bytes written
+        r is Ok ==> r->Ok_0.0 as int == lines_payload(old(self).sys_prefix(syslinep, false, false), syslinep.lines@).len(),
+//@loop 1
+            invariant_except_break
+                vstd::std_specs::iter::IteratorSpec::decrease(&it.iter) is Some,
+            invariant
+                it.snapshot@ == it__snap0, it.wf(),
+                it.seq().len() == syslinep.lines@.len(),
+                forall|i: int| 0 <= i < syslinep.lines@.len() ==> *it.seq()[i] == syslinep.lines@[i],
+                0 <= it.index@ <= it.seq().len(),
+                self.same_config(old(self)), self.buffer@.len() <= usize::MAX,
+                
+                lines_payload(self.sys_prefix(syslinep, false, false), syslinep.lines@).len() <= usize::MAX, total_parts(syslinep.lines@) * 2 + 4 < usize::MAX,
+                stdout_lock.view() + self.buffer@ == lines_payload(self.sys_prefix(syslinep, false, false), syslinep.lines@.take(it.index@ as int)),
+                printed as int == stdout_lock.view().len(),
+                flushed as int <= 2 * total_parts(syslinep.lines@.take(it.index@ as int)),
+            ensures
+                it.index@ == it.seq().len(),
+            decreases vstd::std_specs::iter::IteratorSpec::decrease(&it.iter).unwrap_or(arbitrary()),
+//@after "let mut it = vstd"
+            proof {
+                let k = it__old.index@ as int;
+                lemma_lines_prefix(self.sys_prefix(syslinep, false, false), syslinep.lines@, k);
+                lemma_total_nonneg(syslinep.lines@.take(k));
+                assert((stdout_lock.view() + self.buffer@).len() == stdout_lock.view().len() + self.buffer@.len());
+                assert(lines_payload(self.sys_prefix(syslinep, false, false), syslinep.lines@.take(k + 1)).len()
+                    == lines_payload(self.sys_prefix(syslinep, false, false), syslinep.lines@.take(k)).len() + self.sys_prefix(syslinep, false, false).len() + parts_bytes(syslinep.lines@[k].lineparts@).len());
+            }
+            let ghost k = it__old.index@ as int;
+            let ghost base = lines_payload(self.sys_prefix(syslinep, false, false), syslinep.lines@.take(k));
+//@before "match self.print_line(linep"
+            assert(stdout_lock.view() + self.buffer@ == base + self.sys_prefix(syslinep, false, false));
+            assert((stdout_lock.view() + self.buffer@).len() == stdout_lock.view().len() + self.buffer@.len());
+            let ghost v1 = stdout_lock.view();
+//@after "printed += p;"
+                    assert(stdout_lock.view() + self.buffer@ == base + self.sys_prefix(syslinep, false, false) + parts_bytes(linep.lineparts@));
+//@before "match buffer_flush_or_return__fn"
+        proof {
+            assert(syslinep.lines@.take(syslinep.lines@.len() as int) =~= syslinep.lines@);
+            assert((stdout_lock.view() + self.buffer@).len() == stdout_lock.view().len() + self.buffer@.len());
+        }
+//@before "PrinterLogMessageResult::Ok((printed, flushed))"
+        // C13 / C02: exactly the payload was written -- per line: file-name field, datetime field, line bytes -- nothing else
+        assert(stdout_lock.view() == lines_payload(self.sys_prefix(syslinep, false, false), syslinep.lines@) && printed == stdout_lock.view().len() && self.buffer@.len() == 0);
+//@mutate "printed += p;" "printed += 0;"
+//@end
+
+//@cut fn path=src/printer/printers.rs impl=PrinterLogMessage name=print_sysline_prependdate ret=r
+//@desugar_for 1 it
+//@spec
+    requires
+        old(self).buffer@.len() == 0,
+        old(self).prepend_date_format.bytes().len() > 0,
+        lines_payload(old(self).sys_prefix(syslinep, false, true), syslinep.lines@).len() <= usize::MAX,
+        total_parts(syslinep.lines@) * 2 + 4 < usize::MAX,
+    ensures
+        final(self).same_config(old(self)),
+        r is Ok ==> final(self).buffer@.len() == 0,
+        // C19: the count returned is the number of payload bytes written
+        r is Ok ==> r->Ok_0.0 as int == lines_payload(old(self).sys_prefix(syslinep, false, true), syslinep.lines@).len(),
+//@loop 1
+            invariant_except_break
+                vstd::std_specs::iter::IteratorSpec::decrease(&it.iter) is Some,
+            invariant
+                it.snapshot@ == it__snap0, it.wf(),
+                it.seq().len() == syslinep.lines@.len(),
+                forall|i: int| 0 <= i < syslinep.lines@.len() ==> *it.seq()[i] == syslinep.lines@[i],
+                0 <= it.index@ <= it.seq().len(),
+                self.same_config(old(self)), self.buffer@.len() <= usize::MAX,
+                dtb@ == dt_text(self.prepend_date_format.bytes(), syslinep.dt),
+                lines_payload(self.sys_prefix(syslinep, false, true), syslinep.lines@).len() <= usize::MAX, total_parts(syslinep.lines@) * 2 + 4 < usize::MAX,
+                stdout_lock.view() + self.buffer@ == lines_payload(self.sys_prefix(syslinep, false, true), syslinep.lines@.take(it.index@ as int)),
+                printed as int == stdout_lock.view().len(),
+                flushed as int <= 2 * total_parts(syslinep.lines@.take(it.index@ as int)),
+            ensures
+                it.index@ == it.seq().len(),
+            decreases vstd::std_specs::iter::IteratorSpec::decrease(&it.iter).unwrap_or(arbitrary()),
+//@after "let mut it = vstd"
+            proof {
+                let k = it__old.index@ as int;
+                lemma_lines_prefix(self.sys_prefix(syslinep, false, true), syslinep.lines@, k);
+                lemma_total_nonneg(syslinep.lines@.take(k));
+                assert((stdout_lock.view() + self.buffer@).len() == stdout_lock.view().len() + self.buffer@.len());
+                assert(lines_payload(self.sys_prefix(syslinep, false, true), syslinep.lines@.take(k + 1)).len()
+                    == lines_payload(self.sys_prefix(syslinep, false, true), syslinep.lines@.take(k)).len() + self.sys_prefix(syslinep, false, true).len() + parts_bytes(syslinep.lines@[k].lineparts@).len());
+            }
+            let ghost k = it__old.index@ as int;
+            let ghost base = lines_payload(self.sys_prefix(syslinep, false, true), syslinep.lines@.take(k));
+//@before "match self.print_line(linep"
+            assert(stdout_lock.view() + self.buffer@ == base + self.sys_prefix(syslinep, false, true));
+            assert((stdout_lock.view() + self.buffer@).len() == stdout_lock.view().len() + self.buffer@.len());
+            let ghost v1 = stdout_lock.view();
+//@after "printed += p;"
+                    assert(stdout_lock.view() + self.buffer@ == base + self.sys_prefix(syslinep, false, true) + parts_bytes(linep.lineparts@));
+//@before "match buffer_flush_or_return__fn"
+        proof {
+            assert(syslinep.lines@.take(syslinep.lines@.len() as int) =~= syslinep.lines@);
+            assert((stdout_lock.view() + self.buffer@).len() == stdout_lock.view().len() + self.buffer@.len());
+        }
+//@before "PrinterLogMessageResult::Ok((printed, flushed))"
+        // C13 / C02: exactly the payload was written -- per line: file-name field, datetime field, line bytes -- nothing else
+        assert(stdout_lock.view() == lines_payload(self.sys_prefix(syslinep, false, true), syslinep.lines@) && printed == stdout_lock.view().len() && self.buffer@.len() == 0);
+//@end
+
+//@cut fn path=src/printer/printers.rs impl=PrinterLogMessage name=print_sysline_prependfile ret=r
+//@desugar_for 1 it
+//@spec
+    requires
+        old(self).buffer@.len() == 0,
+        old(self).prepend_file is Some,
+        lines_payload(old(self).sys_prefix(syslinep, true, false), syslinep.lines@).len() <= usize::MAX,
+        total_parts(syslinep.lines@) * 2 + 4 < usize::MAX,
+    ensures
+        final(self).same_config(old(self)),
+        r is Ok ==> final(self).buffer@.len() == 0,
+        // C19: the count returned is the number of payload bytes written
+        r is Ok ==> r->Ok_0.0 as int == lines_payload(old(self).sys_prefix(syslinep, true, false), syslinep.lines@).len(),
+//@loop 1
+            invariant_except_break
+                vstd::std_specs::iter::IteratorSpec::decrease(&it.iter) is Some,
+            invariant
+                it.snapshot@ == it__snap0, it.wf(),
+                it.seq().len() == syslinep.lines@.len(),
+                forall|i: int| 0 <= i < syslinep.lines@.len() ==> *it.seq()[i] == syslinep.lines@[i],
+                0 <= it.index@ <= it.seq().len(),
+                self.same_config(old(self)), self.buffer@.len() <= usize::MAX, self.prepend_file is Some,
+                
+                lines_payload(self.sys_prefix(syslinep, true, false), syslinep.lines@).len() <= usize::MAX, total_parts(syslinep.lines@) * 2 + 4 < usize::MAX,
+                stdout_lock.view() + self.buffer@ == lines_payload(self.sys_prefix(syslinep, true, false), syslinep.lines@.take(it.index@ as int)),
+                printed as int == stdout_lock.view().len(),
+                flushed as int <= 2 * total_parts(syslinep.lines@.take(it.index@ as int)),
+            ensures
+                it.index@ == it.seq().len(),
+            decreases vstd::std_specs::iter::IteratorSpec::decrease(&it.iter).unwrap_or(arbitrary()),
+//@after "let mut it = vstd"
+            proof {
+                let k = it__old.index@ as int;
+                lemma_lines_prefix(self.sys_prefix(syslinep, true, false), syslinep.lines@, k);
+                lemma_total_nonneg(syslinep.lines@.take(k));
+                assert((stdout_lock.view() + self.buffer@).len() == stdout_lock.view().len() + self.buffer@.len());
+                assert(lines_payload(self.sys_prefix(syslinep, true, false), syslinep.lines@.take(k + 1)).len()
+                    == lines_payload(self.sys_prefix(syslinep, true, false), syslinep.lines@.take(k)).len() + self.sys_prefix(syslinep, true, false).len() + parts_bytes(syslinep.lines@[k].lineparts@).len());
+            }
+            let ghost k = it__old.index@ as int;
+            let ghost base = lines_payload(self.sys_prefix(syslinep, true, false), syslinep.lines@.take(k));
+//@before "match self.print_line(linep"
+            assert(stdout_lock.view() + self.buffer@ == base + self.sys_prefix(syslinep, true, false));
+            assert((stdout_lock.view() + self.buffer@).len() == stdout_lock.view().len() + self.buffer@.len());
+            let ghost v1 = stdout_lock.view();
+//@after "printed += p;"
+                    assert(stdout_lock.view() + self.buffer@ == base + self.sys_prefix(syslinep, true, false) + parts_bytes(linep.lineparts@));
+//@before "match buffer_flush_or_return__fn"
+        proof {
+            assert(syslinep.lines@.take(syslinep.lines@.len() as int) =~= syslinep.lines@);
+            assert((stdout_lock.view() + self.buffer@).len() == stdout_lock.view().len() + self.buffer@.len());
+        }
+//@before "PrinterLogMessageResult::Ok((printed, flushed))"
+        // C13 / C02: exactly the payload was written -- per line: file-name field, datetime field, line bytes -- nothing else
+        assert(stdout_lock.view() == lines_payload(self.sys_prefix(syslinep, true, false), syslinep.lines@) && printed == stdout_lock.view().len() && self.buffer@.len() == 0);
+//@end
+
+//@cut fn path=src/printer/printers.rs impl=PrinterLogMessage name=print_sysline_prependfile_prependdate ret=r
+//@desugar_for 1 it
+//@spec
+    requires
+        old(self).buffer@.len() == 0,
+        old(self).prepend_file is Some,
+        old(self).prepend_date_format.bytes().len() > 0,
+        lines_payload(old(self).sys_prefix(syslinep, true, true), syslinep.lines@).len() <= usize::MAX,
+        total_parts(syslinep.lines@) * 2 + 4 < usize::MAX,
+    ensures
+        final(self).same_config(old(self)),
+        r is Ok ==> final(self).buffer@.len() == 0,
+        // C19: the count returned is the number of payload bytes written
+        r is Ok ==> r->Ok_0.0 as int == lines_payload(old(self).sys_prefix(syslinep, true, true), syslinep.lines@).len(),
+//@loop 1
+            invariant_except_break
+                vstd::std_specs::iter::IteratorSpec::decrease(&it.iter) is Some,
+            invariant
+                it.snapshot@ == it__snap0, it.wf(),
+                it.seq().len() == syslinep.lines@.len(),
+                forall|i: int| 0 <= i < syslinep.lines@.len() ==> *it.seq()[i] == syslinep.lines@[i],
+                0 <= it.index@ <= it.seq().len(),
+                self.same_config(old(self)), self.buffer@.len() <= usize::MAX, self.prepend_file is Some,
+                dtb@ == dt_text(self.prepend_date_format.bytes(), syslinep.dt),
+                lines_payload(self.sys_prefix(syslinep, true, true), syslinep.lines@).len() <= usize::MAX, total_parts(syslinep.lines@) * 2 + 4 < usize::MAX,
+                stdout_lock.view() + self.buffer@ == lines_payload(self.sys_prefix(syslinep, true, true), syslinep.lines@.take(it.index@ as int)),
+                printed as int == stdout_lock.view().len(),
+                flushed as int <= 2 * total_parts(syslinep.lines@.take(it.index@ as int)),
+            ensures
+                it.index@ == it.seq().len(),
+            decreases vstd::std_specs::iter::IteratorSpec::decrease(&it.iter).unwrap_or(arbitrary()),
+//@after "let mut it = vstd"
+            proof {
+                let k = it__old.index@ as int;
+                lemma_lines_prefix(self.sys_prefix(syslinep, true, true), syslinep.lines@, k);
+                lemma_total_nonneg(syslinep.lines@.take(k));
+                assert((stdout_lock.view() + self.buffer@).len() == stdout_lock.view().len() + self.buffer@.len());
+                assert(lines_payload(self.sys_prefix(syslinep, true, true), syslinep.lines@.take(k + 1)).len()
+                    == lines_payload(self.sys_prefix(syslinep, true, true), syslinep.lines@.take(k)).len() + self.sys_prefix(syslinep, true, true).len() + parts_bytes(syslinep.lines@[k].lineparts@).len());
+            }
+            let ghost k = it__old.index@ as int;
+            let ghost base = lines_payload(self.sys_prefix(syslinep, true, true), syslinep.lines@.take(k));
+//@before "match buffer_write_or_return__fn(&mut stdout_lock, &mut self.buffer, dtb,"
+            proof {
+                assert(stdout_lock.view() + self.buffer@ == base + self.pf());
+                assert((stdout_lock.view() + self.buffer@).len() == stdout_lock.view().len() + self.buffer@.len());
+                assert(self.sys_prefix(syslinep, true, true).len() == self.pf().len() + dtb@.len());
+            }
+//@before "match self.print_line(linep"
+            assert(stdout_lock.view() + self.buffer@ == base + self.sys_prefix(syslinep, true, true));
+            assert((stdout_lock.view() + self.buffer@).len() == stdout_lock.view().len() + self.buffer@.len());
+            let ghost v1 = stdout_lock.view();
+//@after "printed += p;"
+                    assert(stdout_lock.view() + self.buffer@ == base + self.sys_prefix(syslinep, true, true) + parts_bytes(linep.lineparts@));
+//@before "match buffer_flush_or_return__fn"
+        proof {
+            assert(syslinep.lines@.take(syslinep.lines@.len() as int) =~= syslinep.lines@);
+            assert((stdout_lock.view() + self.buffer@).len() == stdout_lock.view().len() + self.buffer@.len());
+        }
+//@before "PrinterLogMessageResult::Ok((printed, flushed))"
+        // C13 / C02: exactly the payload was written -- per line: file-name field, datetime field, line bytes -- nothing else
+        assert(stdout_lock.view() == lines_payload(self.sys_prefix(syslinep, true, true), syslinep.lines@) && printed == stdout_lock.view().len() && self.buffer@.len() == 0);
+//@mutate "self.prepend_file.as_ref().unwrap().as_bytes(), &mut printed" "dtb, &mut printed"
+//@end
 
     /// C13: payload of one accounting record = [file-name field] ++ [datetime field] ++ record text, in that order
     pub open spec fn fx_payload(&self, m: &FixedStruct, buflen: int, with_file: bool, with_date: bool) -> Seq<u8> {
@@ -129,7 +551,7 @@ impl PrinterLogMessage {
         r is Ok ==> r->Ok_0.0 as int == old(self).fx_payload(fixedstruct, old(buffer)@.len() as int, false, false).len(),
 //@before "PrinterLogMessageResult::Ok((printed, flushed))"
         // C13 / C02: exactly the payload was written, nothing else; every byte written was counted
-        assert(stdout_lock@ == self.fx_payload(fixedstruct, buffer@.len() as int, false, false) && printed == stdout_lock@.len() && self.buffer@.len() == 0);
+        assert(stdout_lock.view() == self.fx_payload(fixedstruct, buffer@.len() as int, false, false) && printed == stdout_lock.view().len() && self.buffer@.len() == 0);
 //@end
 
 //@cut fn path=src/printer/printers.rs impl=PrinterLogMessage name=print_fixedstruct_prependdate ret=r
@@ -143,7 +565,7 @@ impl PrinterLogMessage {
         r is Ok ==> final(self).buffer@.len() == 0,
         r is Ok ==> r->Ok_0.0 as int == old(self).fx_payload(fixedstruct, old(buffer)@.len() as int, false, true).len(),
 //@before "PrinterLogMessageResult::Ok((printed, flushed))"
-        assert(stdout_lock@ == self.fx_payload(fixedstruct, buffer@.len() as int, false, true) && printed == stdout_lock@.len() && self.buffer@.len() == 0);
+        assert(stdout_lock.view() == self.fx_payload(fixedstruct, buffer@.len() as int, false, true) && printed == stdout_lock.view().len() && self.buffer@.len() == 0);
 //@end
 
 //@cut fn path=src/printer/printers.rs impl=PrinterLogMessage name=print_fixedstruct_prependfile ret=r
@@ -157,7 +579,7 @@ impl PrinterLogMessage {
         r is Ok ==> final(self).buffer@.len() == 0,
         r is Ok ==> r->Ok_0.0 as int == old(self).fx_payload(fixedstruct, old(buffer)@.len() as int, true, false).len(),
 //@before "PrinterLogMessageResult::Ok((printed, flushed))"
-        assert(stdout_lock@ == self.fx_payload(fixedstruct, buffer@.len() as int, true, false) && printed == stdout_lock@.len() && self.buffer@.len() == 0);
+        assert(stdout_lock.view() == self.fx_payload(fixedstruct, buffer@.len() as int, true, false) && printed == stdout_lock.view().len() && self.buffer@.len() == 0);
 //@end
 
 //@cut fn path=src/printer/printers.rs impl=PrinterLogMessage name=print_fixedstruct_prependfile_prependdate ret=r
@@ -171,15 +593,85 @@ impl PrinterLogMessage {
         final(self).same_config(old(self)),
         r is Ok ==> final(self).buffer@.len() == 0,
         r is Ok ==> r->Ok_0.0 as int == old(self).fx_payload(fixedstruct, old(buffer)@.len() as int, true, true).len(),
-//@before "let mut error_ret: Option<Error> = None;" 2
-        assert(stdout_lock@ + self.buffer@ == self.pf() && printed == stdout_lock@.len());
-//@before "let mut error_ret: Option<Error> = None;" 3
-        assert(stdout_lock@ + self.buffer@ == self.pf() + dt_text(self.prepend_date_format.bytes(), fixedstruct.dt_spec()) && printed == stdout_lock@.len());
-//@before "let mut error_ret: Option<Error> = None;" 4
-        assert(stdout_lock@ + self.buffer@ == self.fx_payload(fixedstruct, buffer@.len() as int, true, true) && printed == stdout_lock@.len());
 //@before "PrinterLogMessageResult::Ok((printed, flushed))"
         // C13: the file-name field comes before the datetime field, as for every other kind of message
-        assert(stdout_lock@ == self.fx_payload(fixedstruct, buffer@.len() as int, true, true) && printed == stdout_lock@.len() && self.buffer@.len() == 0);
+        assert(stdout_lock.view() == self.fx_payload(fixedstruct, buffer@.len() as int, true, true) && printed == stdout_lock.view().len() && self.buffer@.len() == 0);
+//@mutate "&mut self.buffer, prepend_file," "&mut self.buffer, dtb,"
+//@end
+
+    /// configuration invariant established by PrinterLogMessage::new (do_prepend_* mirror the option values)
+    pub open spec fn config_ok(&self) -> bool {
+        &&& self.do_prepend_file == (self.prepend_file is Some)
+        &&& self.do_prepend_date == (self.prepend_date_format.bytes().len() > 0)
+        &&& self.buffer@.len() == 0
+    }
+
+    // ---- assumed until brought under contract: the colour variants write the same payload (C13 "pure decoration")
+    // and return its length; only escape sequences are added.  Listed in the evidence as assumptions.
+    #[verifier::external_body]
+    fn print_sysline_color(&mut self, syslinep: &SyslineP) -> (r: PrinterLogMessageResult)
+        ensures final(self).same_config(old(self)), r is Ok ==> final(self).buffer@.len() == 0,
+            r is Ok ==> r->Ok_0.0 as int == lines_payload(old(self).sys_prefix(syslinep, false, false), syslinep.lines@).len()
+    { unimplemented!() }
+    #[verifier::external_body]
+    fn print_sysline_prependfile_color(&mut self, syslinep: &SyslineP) -> (r: PrinterLogMessageResult)
+        ensures final(self).same_config(old(self)), r is Ok ==> final(self).buffer@.len() == 0,
+            r is Ok ==> r->Ok_0.0 as int == lines_payload(old(self).sys_prefix(syslinep, true, false), syslinep.lines@).len()
+    { unimplemented!() }
+    #[verifier::external_body]
+    fn print_sysline_prependdate_color(&mut self, syslinep: &SyslineP) -> (r: PrinterLogMessageResult)
+        ensures final(self).same_config(old(self)), r is Ok ==> final(self).buffer@.len() == 0,
+            r is Ok ==> r->Ok_0.0 as int == lines_payload(old(self).sys_prefix(syslinep, false, true), syslinep.lines@).len()
+    { unimplemented!() }
+    #[verifier::external_body]
+    fn print_sysline_prependfile_prependdate_color(&mut self, syslinep: &SyslineP) -> (r: PrinterLogMessageResult)
+        ensures final(self).same_config(old(self)), r is Ok ==> final(self).buffer@.len() == 0,
+            r is Ok ==> r->Ok_0.0 as int == lines_payload(old(self).sys_prefix(syslinep, true, true), syslinep.lines@).len()
+    { unimplemented!() }
+    #[verifier::external_body]
+    fn print_fixedstruct_color(&mut self, fixedstruct: &FixedStruct, buffer: &mut [u8]) -> (r: PrinterLogMessageResult)
+        ensures final(self).same_config(old(self)), r is Ok ==> final(self).buffer@.len() == 0,
+            r is Ok ==> r->Ok_0.0 as int == old(self).fx_payload(fixedstruct, old(buffer)@.len() as int, false, false).len()
+    { unimplemented!() }
+    #[verifier::external_body]
+    fn print_fixedstruct_prependfile_color(&mut self, fixedstruct: &FixedStruct, buffer: &mut [u8]) -> (r: PrinterLogMessageResult)
+        ensures final(self).same_config(old(self)), r is Ok ==> final(self).buffer@.len() == 0,
+            r is Ok ==> r->Ok_0.0 as int == old(self).fx_payload(fixedstruct, old(buffer)@.len() as int, true, false).len()
+    { unimplemented!() }
+    #[verifier::external_body]
+    fn print_fixedstruct_prependdate_color(&mut self, fixedstruct: &FixedStruct, buffer: &mut [u8]) -> (r: PrinterLogMessageResult)
+        ensures final(self).same_config(old(self)), r is Ok ==> final(self).buffer@.len() == 0,
+            r is Ok ==> r->Ok_0.0 as int == old(self).fx_payload(fixedstruct, old(buffer)@.len() as int, false, true).len()
+    { unimplemented!() }
+    #[verifier::external_body]
+    fn print_fixedstruct_prependfile_prependdate_color(&mut self, fixedstruct: &FixedStruct, buffer: &mut [u8]) -> (r: PrinterLogMessageResult)
+        ensures final(self).same_config(old(self)), r is Ok ==> final(self).buffer@.len() == 0,
+            r is Ok ==> r->Ok_0.0 as int == old(self).fx_payload(fixedstruct, old(buffer)@.len() as int, true, true).len()
+    { unimplemented!() }
+
+//@cut fn path=src/printer/printers.rs impl=PrinterLogMessage name=print_sysline ret=r
+//@spec
+    requires
+        old(self).config_ok(),
+        lines_payload(old(self).sys_prefix(syslinep, old(self).do_prepend_file, old(self).do_prepend_date), syslinep.lines@).len() <= usize::MAX,
+        total_parts(syslinep.lines@) * 2 + 4 < usize::MAX,
+    ensures
+        final(self).same_config(old(self)),
+        r is Ok ==> final(self).config_ok(),
+        // C13: every colour setting and every prepend combination yields [file][date][line] per line; C19: count = payload length
+        r is Ok ==> r->Ok_0.0 as int == lines_payload(old(self).sys_prefix(syslinep, old(self).do_prepend_file, old(self).do_prepend_date), syslinep.lines@).len(),
+//@end
+
+//@cut fn path=src/printer/printers.rs impl=PrinterLogMessage name=print_fixedstruct ret=r
+//@spec
+    requires
+        old(self).config_ok(),
+        old(self).fx_payload(fixedstruct, old(buffer)@.len() as int, old(self).do_prepend_file, old(self).do_prepend_date).len() <= usize::MAX,
+    ensures
+        final(self).same_config(old(self)),
+        r is Ok ==> final(self).config_ok(),
+        r is Ok ==> r->Ok_0.0 as int == old(self).fx_payload(fixedstruct, old(buffer)@.len() as int, old(self).do_prepend_file, old(self).do_prepend_date).len(),
+//@mutate "(false, true, false) => self.print_fixedstruct_prependfile(fixedstruct, buffer)" "(false, true, false) => self.print_fixedstruct_prependdate(fixedstruct, buffer)"
 //@end
 }
 
